@@ -60,10 +60,20 @@ PROPS = {
             "HqModel.C17.c17_resume_live",
             "HqModel.C17.c17_resume_live_false_before_fix",
             "HqModel.C17.c17_permit_order_independent",
+            # "submitted on demand": the multi-node part of the worker query (model M10, Props/C17Query.lean)
+            "HqModel.Query.c17_mn_demand_offered", "HqModel.Query.c17_mn_answers_sound",
         ],
         "parts": [dict(_PART, clauses=["c17."],
-                       tags=["submit", "query", "queue", "lim", "alloc", "tickres", "resp", "sched", "ev", "a2q"])],
-        "assumptions": _ASSUMPTIONS,
+                       tags=["submit", "query", "queue", "lim", "alloc", "tickres", "resp", "sched", "ev", "a2q"]),
+                  # component query: ServerRef::new_worker_query -> compute_new_worker_query on the REAL tako core with waiting
+                  # multi-node classes (nodes, time request), single-node tasks and 1-4 worker types (time limit, workers per
+                  # allocation); multi-node answers compared with model M10, single-node counts (real solver) sanity-checked
+                  {"component": "query", "driver": "hqm-query", "tags": ["mn"], "clauses": ["c17."],
+                   "quick": {"cases": 60, "shards": 16, "extra": []}, "thorough": {"cases": 2000, "shards": 16, "extra": []}}],
+        "assumptions": _ASSUMPTIONS + [
+            "component autoalloc scripts the answer of the worker query (the demand is an input of the tick); the query itself "
+            "(tako compute_new_worker_query) is covered by component query: its multi-node part is model M10 (c17_mn_*), its "
+            "single-node part runs HiGHS on fake workers and is only sanity-checked by monitors (c17.demand sn-*)"],
         "trusted_base": _TRUSTED,
     },
     "C18": {
